@@ -414,10 +414,14 @@ func knownSignature(q Query, classes []string, n nodeAnswer, e esAnswer) string 
 		// "pkg/lib/../x" against "./lib/*": Node refuses a "*" match that contains a ".", ".." or "node_modules"
 		// segment; esbuild's check skips the first segment of the match (and encoded/case variants everywhere)
 		return "C11-dot-segment-in-subpath"
-	case isImportKind(q.Kind) && hashImport && has("imports-to-package") && hasPercentEscape(q.Spec):
-		// an imports entry that maps to another package ("#dep/*": "pb/*"): the remapped specifier is resolved
-		// like a bare import, with the same URL decoding that esbuild lacks
+	case hashImport && has("imports-to-package") && hasPercentEscape(q.Spec):
+		// an imports entry that maps to another package ("#dep/*": "pb/*"): Node resolves the remapped specifier
+		// with the ESM package resolver for import AND require, with the same URL decoding that esbuild lacks
 		return "C11-percent-bare-import"
+	case hashImport && has("imports-array") && has("imports-to-package") && n.Code == "" && len(e.Errors) > 0:
+		// Node's array loop also catches ERR_INVALID_PACKAGE_TARGET thrown while resolving an entry that is a
+		// package specifier and moves on; esbuild leaves the loop with the package specifier
+		return "C11-imports-array-package-fallback"
 	case (bare || hashImport) && has("pattern-base-equals-subpath"):
 		// "./lib/a*" must not match the subpath "./lib/a" (Node requires a non-empty match: subpath at least as
 		// long as the key); esbuild lets "*" match the empty string and never reaches the next pattern
@@ -493,8 +497,8 @@ func judgeTree(t Tree, qs []Query) []vdrv.Verdict {
 	for i, q := range qs {
 		vs[i] = judgeOne(root, model, q, nodeAns[i], esAns[i])
 		if os.Getenv("C11_DEBUG") != "" {
-			fmt.Printf("C11_DEBUG %-16s %-40q from %-34s node=%s | esbuild=%s | ok=%v discard=%q classes=%v nt=%v\n", q.Kind, q.Spec, q.Importer,
-				showNode(root, nodeAns[i]), showEs(root, esAns[i]), vs[i].OK, vs[i].Discard, vs[i].Classes, vs[i].NonTrivial)
+			fmt.Printf("C11_DEBUG %-16s %-40q from %-34s node=%s | esbuild=%s | ok=%v known=%q discard=%q classes=%v nt=%v\n", q.Kind, q.Spec, q.Importer,
+				showNode(root, nodeAns[i]), showEs(root, esAns[i]), vs[i].OK, vs[i].Known, vs[i].Discard, vs[i].Classes, vs[i].NonTrivial)
 		}
 	}
 	return vs
@@ -539,8 +543,21 @@ func showEs(root string, a esAnswer) string {
 	return s
 }
 
+func dedupe(xs []string) []string {
+	seen := map[string]bool{}
+	out := xs[:0]
+	for _, x := range xs {
+		if !seen[x] {
+			seen[x] = true
+			out = append(out, x)
+		}
+	}
+	return out
+}
+
 func judgeOne(root string, m *model, q Query, n nodeAnswer, e esAnswer) vdrv.Verdict {
 	classes, nontrivial := m.classify(q)
+	classes = dedupe(classes)
 	switch {
 	case n.Code == "" && n.Exists:
 		// Node resolved to an existing file ⇒ esbuild must resolve to the same file.
@@ -841,7 +858,41 @@ func splitBare(spec string) (name, sub string) {
 }
 
 // classify labels a query from the case alone.
-func (m *model) classify(q Query) (classes []string, nontrivial bool) {
+func (m *model) classify(q Query) (classes []string, nontrivial bool) { return m.classifyDepth(q, 0) }
+
+// bareLeaves lists the string leaves of a target that are package specifiers (not "./…", "../…", "/…").
+func bareLeaves(raw json.RawMessage) (out []string) {
+	var v interface{}
+	if json.Unmarshal(raw, &v) != nil {
+		return
+	}
+	var walk func(v interface{})
+	walk = func(v interface{}) {
+		switch x := v.(type) {
+		case string:
+			if !strings.HasPrefix(x, "./") && !strings.HasPrefix(x, "../") && !strings.HasPrefix(x, "/") {
+				out = append(out, x)
+			}
+		case []interface{}:
+			for _, e := range x {
+				walk(e)
+			}
+		case map[string]interface{}:
+			ks := make([]string, 0, len(x))
+			for k := range x {
+				ks = append(ks, k)
+			}
+			sort.Strings(ks)
+			for _, k := range ks {
+				walk(x[k])
+			}
+		}
+	}
+	walk(v)
+	return
+}
+
+func (m *model) classifyDepth(q Query, depth int) (classes []string, nontrivial bool) {
 	add := func(c string) { classes = append(classes, c) }
 	if isImportKind(q.Kind) {
 		add("kind=import")
@@ -866,7 +917,6 @@ func (m *model) classify(q Query) (classes []string, nontrivial bool) {
 			break
 		}
 	}
-	_ = scopeDir
 	mapLabels := func(prefix string, raw json.RawMessage, subpath string) {
 		nkeys, key, target, ok := entryFor(raw, subpath, prefix == "imports")
 		var allKeys map[string]json.RawMessage
@@ -886,13 +936,15 @@ func (m *model) classify(q Query) (classes []string, nontrivial bool) {
 			add(prefix + "-nomatch")
 			return
 		}
+		match := ""
 		if i := strings.Index(key, "*"); i >= 0 {
 			add(prefix + "-pattern")
-			match := subpath[i : len(subpath)-(len(key)-i-1)]
-			if j := strings.IndexAny(match, "?#"); j >= 0 {
-				match = match[:j]
+			match = subpath[i : len(subpath)-(len(key)-i-1)]
+			pathPart := match
+			if j := strings.IndexAny(pathPart, "?#"); j >= 0 {
+				pathPart = pathPart[:j]
 			}
-			for _, seg := range strings.Split(match, "/") {
+			for _, seg := range strings.Split(pathPart, "/") {
 				if seg == "." || seg == ".." || seg == "node_modules" || encodedInvalidSegment(seg) {
 					add("subpath-invalid-segment")
 					break
@@ -925,6 +977,25 @@ func (m *model) classify(q Query) (classes []string, nontrivial bool) {
 		}
 		if bare && prefix == "imports" {
 			add("imports-to-package")
+			// follow the remapped package specifier(s) one step so that the labels also describe the exports map
+			// the request finally goes through (labels only)
+			for _, leaf := range bareLeaves(target) {
+				remapped := leaf
+				if strings.Contains(key, "*") {
+					remapped = strings.ReplaceAll(leaf, "*", match)
+				}
+				if depth > 0 || isRelOrAbs(remapped) || strings.HasPrefix(remapped, "#") || remapped == "" {
+					continue
+				}
+				sub, nt := m.classifyDepth(Query{Importer: join(scopeDir, "package.json"), Spec: remapped, Kind: q.Kind}, depth+1)
+				nontrivial = nontrivial || nt
+				for _, c := range sub {
+					if strings.HasPrefix(c, "exports-") || strings.HasPrefix(c, "pattern-base") || strings.HasPrefix(c, "subpath-") || strings.HasPrefix(c, "target-encoded") ||
+						strings.HasPrefix(c, "outer-candidate") || c == "symlink" || c == "nm-levels>=2" || c == "self-reference" {
+						add(c)
+					}
+				}
+			}
 		}
 	}
 	switch {
@@ -1002,6 +1073,9 @@ func (m *model) classify(q Query) (classes []string, nontrivial bool) {
 								oreal, _ := m.resolveLink(join(join(o, "node_modules"), name))
 								if p, ok := m.pkgAt(oreal); ok && len(p.Exports) > 0 && string(p.Exports) != "null" {
 									add("outer-candidate-has-exports")
+									if sub != "" {
+										mapLabels("exports", p.Exports, "."+sub)
+									}
 									break
 								}
 							}
